@@ -90,7 +90,7 @@ class Machine:
         rng = self.rng
         parents = [m] + [s for s in m.all_spaces() if s.depth() < self.cfg.get("max_depth", 2)]
         parent = rng.choice(parents)
-        pool = self.cfg.get("tops", gen.TOPS) if parent is m else gen.CHILDREN      # the same pool at every depth: A.U.V and A.V.V can coexist
+        pool = self.cfg.get("tops", gen.TOPS) if parent is m else self.cfg.get("children", gen.CHILDREN)      # the same pool at every depth: A.U.V and A.V.V can coexist
         if self.cfg.get("clash"):
             pool = self.cfg["clash_pool"]
         free = [n for n in pool if n not in self.used_names(parent)] if not self.cfg.get("clash") else list(pool)
@@ -294,7 +294,7 @@ class Machine:
         s = gen.pick_space(self.rng, self.ref)
         if not s or not self.space_editable(s):
             return None
-        pool = self.cfg.get("tops", gen.TOPS) if isinstance(s.parent, rm.RModel) else gen.CHILDREN
+        pool = self.cfg.get("tops", gen.TOPS) if isinstance(s.parent, rm.RModel) else self.cfg.get("children", gen.CHILDREN)
         if self.cfg.get("clash"):
             pool = self.cfg["clash_pool"]
         free = [n for n in pool if n not in self.used_names(s.parent)] or list(pool)
